@@ -17,6 +17,7 @@ mpq_ptr FastRational::mpqPool::alloc()
 {
     mpq_ptr r;
     OSMT_VERIF_SCHED("pool.alloc");
+    std::lock_guard<std::mutex> lock(mtx);
     if (!pool.empty()) {
         r = pool.top();
         OSMT_VERIF_SCHED("pool.alloc.mid");
@@ -30,6 +31,7 @@ mpq_ptr FastRational::mpqPool::alloc()
 void FastRational::mpqPool::release(mpq_ptr ptr)
 {
     OSMT_VERIF_SCHED("pool.release");
+    std::lock_guard<std::mutex> lock(mtx);
     pool.push(ptr);
 }
 
